@@ -507,11 +507,29 @@ class _Attrs:
     def __contains__(self, k):
         return k in self.d
 
+    def get(self, k, default=None):
+        return self[k] if k in self.d else default
+
     def items(self):
         return [(k, self[k]) for k in sorted(self.d)]
 
     def keys(self):
         return sorted(self.d)
+
+    def values(self):
+        return [self[k] for k in sorted(self.d)]
+
+    def __iter__(self):
+        return iter(sorted(self.d))
+
+    def __len__(self):
+        return len(self.d)
+
+    def __delitem__(self, k):
+        del self.d[k]
+
+    def modify(self, k, v):
+        self.d[k] = self._conv(v)
 
 
 class _Dataset:
